@@ -103,8 +103,22 @@ def predict(role, history):
 def to_script(history):
     actions = []
     rest = b''
+
+    def glued(act, data):
+        # 'glue': the bytes arrive in the SAME segment (one read) as the network action before; the script keeps a
+        # no-op in this position so that script and history indices stay aligned
+        if act.get('glue') and actions and actions[-1]['k'] == 'seg' and actions[-1]['data']:
+            actions[-1] = dict(actions[-1], data=actions[-1]['data'] + data)
+            actions.append({'k': 'call', 'fn': lambda sim: None})
+            return True
+        return False
     for act in history:
         a = act['a']
+        if a == 'head' and glued(act, refpdu.enc_pdu(act['spec'])[:act['cut']]):
+            rest = refpdu.enc_pdu(act['spec'])[act['cut']:]
+            continue
+        if a == 'pdu' and glued(act, refpdu.enc_pdu(act['spec'])):
+            continue
         if a == 'pdu':
             actions.append({'k': 'seg', 'data': refpdu.enc_pdu(act['spec']), 'eager': bool(act.get('eager'))})
         elif a == 'head':
